@@ -78,6 +78,7 @@ class Sched(object):
         self._bp_points = set()
         self.conditions = []
         self.park_p = 0.1
+        self.timed_waits = 0
         self.race_hits = 0  # probe: a postponed event met a conflicting one
 
     # -- set-up ------------------------------------------------------------------------------
@@ -348,6 +349,13 @@ class SimLock(object):
         while self.locked_by is not None:
             if not blocking:
                 return False
+            if timeout is not None and timeout >= 0:
+                # timed acquire: may give up whenever the scheduler says so (no clock in the simulation)
+                s.timed_waits += 1
+                s.block_on(("lock-timed", self.name), lambda: True)
+                if self.locked_by is not None:
+                    return False
+                break
             s.block_on(("lock", self.name), lambda: self.locked_by is None)
         self.locked_by = me
         return True
@@ -401,7 +409,13 @@ class SimCondition(object):
         self.waiters.append(entry)
         self.lock.locked_by = None
         try:
-            s.block_on(("cond", self.lock.name), lambda: entry[1])
+            if timeout is None:
+                s.block_on(("cond", self.lock.name), lambda: entry[1])
+            else:
+                # a timed wait: there is no clock the properties depend on, so the time-out may expire
+                # whenever the scheduler says so (the other party may be stalled for arbitrarily long)
+                s.timed_waits += 1
+                s.block_on(("cond-timed", self.lock.name), lambda: True)
         finally:
             if entry in self.waiters:
                 self.waiters.remove(entry)
@@ -409,7 +423,16 @@ class SimCondition(object):
         while self.lock.locked_by is not None:
             s.block_on(("lock", self.lock.name), lambda: self.lock.locked_by is None)
         self.lock.locked_by = me
-        return True
+        return entry[1]
+
+    def wait_for(self, predicate, timeout=None):
+        result = predicate()
+        while not result:
+            notified = self.wait(timeout)
+            result = predicate()
+            if timeout is not None and not notified:
+                break  # timed out
+        return result
 
     def notify(self, n=1):
         s = _sched()
